@@ -12,7 +12,12 @@ import Hw.Io.SyntheticDumpLemmas
 import Hw.Io.SyntheticFilter
 import Hw.Io.SyntheticFilterLemmas
 import Hw.Io.SyntheticWFAll
+import Hw.Io.SyntheticWFFull
+import Hw.Io.SyntheticOrder4
+import Hw.Io.SyntheticOrder6
+import Hw.Io.SyntheticWF17
 import Hw.Io.SyntheticFix
+import Hw.Io.SyntheticFix2
 namespace Hw.Props.C07
 open Hw Hw.Syn Hw.Topo
 
@@ -275,7 +280,8 @@ theorem C07_build_wf_reduction (t : Topo) (h : topoOK t = true) (hp : puOK t = t
 /-- non-vacuity of the `restOK` hypothesis: it holds on the whole bounded family -/
 example : ∀ t ∈ wfFamily, restOK (toDump t) = true := fun t ht => restOK_of_wf _ (C07_build_wf_bounded t ht)
 
-/-- exactly which clauses remain unproved in general -/
+/-- exactly which clauses `C07_build_wf_clauses` does not cover (they were unproved in general when it was stated; they are now
+proved by `C07_build_wf_rest_clauses` below, `siblings-ordered` under the additional side condition `sibOK`) -/
 theorem C07_build_wf_unproved_clauses :
     (topClauses.map (·.1)).filter (fun n => !provedTopClauses.contains n) =
       [] ∧
@@ -289,6 +295,156 @@ example : wfFamily.all (fun t => topoOK t && puOK t && memOK t && numaOK t) = tr
 example : (fun t => topoOK t && puOK t && memOK t && numaOK t) (orderTopo [] [{ type := tPACKAGE, arity := 3, mem := [⟨1024, 0⟩, ⟨2048, 512⟩] },
     { type := tL1 + 2, arity := 2, cdepth := 3, ctype := 0, size := 1048576 }, { type := tCORE, arity := 2 }, { type := tPU, arity := 2 }]
     (List.range 24) (List.range 6)) = true := by decide
+
+/-! ### build_wf — the two remaining clauses and the full theorem -/
+
+/-- **the two clauses that `C07_build_wf_clauses` left open, for EVERY abstract topology**:
+`nodeset-decomposition` under `topoOK` and `numaOK` — through the real aggregate folds of `Hw.Topo.mkAux`: the memory children's
+nodesets of every normal object are pairwise disjoint, the bottom-up fold `below` (nodes attached at or below the object)
+accumulates pairwise disjoint parts, the top-down fold `inh` (nodes of the ancestors' memory children) is disjoint from it, and
+the object's nodeset is exactly `inh ||| below`;
+`siblings-ordered` under `topoOK` and the fifth side condition `sibOK` — consecutive normal siblings are listed by increasing
+first bit of their complete_cpuset, memory siblings by increasing first bit of their complete_nodeset.  `sibOK t` is exactly
+what is needed on the index sequences: for consecutive normal siblings the smallest PU os_index (`minL` of the slice of `puIdx`)
+below the first is smaller than the smallest below the second, and the NUMA os_indexes of the memory children of one object
+increase.  It is NOT implied by the other four conditions (see the example below: PU indexes [1, 0] under one root);
+it is what the core's reordering of children (`orderTopo`) establishes, and the driver evaluates it on every case. -/
+theorem C07_build_wf_rest_clauses (t : Topo) (h : topoOK t = true) :
+    (numaOK t = true → ∀ c ∈ objClauses, c.1 = "nodeset-decomposition" → ∀ o ∈ (toDump t).objs, c.2 (toDump t) (mkAux (toDump t)) o = true) ∧
+    (sibOK t = true → ∀ c ∈ objClauses, c.1 = "siblings-ordered" → ∀ o ∈ (toDump t).objs, c.2 (toDump t) (mkAux (toDump t)) o = true) := by
+  constructor
+  · intro hn c hc hname o ho
+    unfold objClauses at hc
+    simp only [List.mem_cons, List.not_mem_nil, or_false] at hc
+    rcases hc with rfl | rfl | rfl | rfl | rfl | rfl | rfl | rfl | rfl | rfl | rfl | rfl | rfl | rfl | rfl | rfl | rfl | rfl | rfl | rfl |
+      rfl | rfl | rfl | rfl | rfl | rfl | rfl | rfl | rfl | rfl
+    all_goals first
+      | exact cl_nodeset_decomposition t (topoOK_OK t h) hn o ho
+      | (exfalso; revert hname; decide)
+  · intro hs c hc hname o ho
+    unfold objClauses at hc
+    simp only [List.mem_cons, List.not_mem_nil, or_false] at hc
+    rcases hc with rfl | rfl | rfl | rfl | rfl | rfl | rfl | rfl | rfl | rfl | rfl | rfl | rfl | rfl | rfl | rfl | rfl | rfl | rfl | rfl |
+      rfl | rfl | rfl | rfl | rfl | rfl | rfl | rfl | rfl | rfl
+    all_goals first
+      | exact cl_siblings_ordered t (topoOK_OK t h) hs o ho
+      | (exfalso; revert hname; decide)
+
+/-- **build_wf, for EVERY abstract topology, no table**: under the five decidable side conditions (`topoOK`, `puOK`, `memOK`,
+`numaOK`, `sibOK`; the driver evaluates all five on every topology `buildTopo` returns and hwloc agrees with) the complete dump
+`toDump t` satisfies all 47 clauses of `Hw.Topo.WF`.  No bound on the depth, the arities, the number of memory children or the
+index values. -/
+theorem C07_build_wf (t : Topo) (h : topoOK t = true) (hp : puOK t = true) (hm : memOK t = true) (hn : numaOK t = true)
+    (hs : sibOK t = true) : WF (toDump t) :=
+  build_wf t h hp hm hn hs
+
+/-- hence the executable check of the two clauses (`restOK`, the hypothesis of `C07_build_wf_partial`) always succeeds -/
+theorem C07_build_wf_rest (t : Topo) (h : topoOK t = true) (hn : numaOK t = true) (hs : sibOK t = true) : restOK (toDump t) = true :=
+  restOK_toDump t (topoOK_OK t h) hn hs
+
+/-- non-vacuity: the whole bounded family and the 5-level topology satisfy the five side conditions -/
+example : wfFamily.all (fun t => topoOK t && puOK t && memOK t && numaOK t && sibOK t) = true := by decide
+example : (fun t => topoOK t && puOK t && memOK t && numaOK t && sibOK t) (orderTopo [] [{ type := tPACKAGE, arity := 3, mem := [⟨1024, 0⟩, ⟨2048, 512⟩] },
+    { type := tL1 + 2, arity := 2, cdepth := 3, ctype := 0, size := 1048576 }, { type := tCORE, arity := 2 }, { type := tPU, arity := 2 }]
+    (List.range 24) (List.range 6)) = true := by decide
+/-- ... with interleaved PU indexes, which `orderTopo` sorts into place (Package:2 Core:2 PU:2, indexes 0,4,2,6,1,5,3,7) -/
+example : (fun t => topoOK t && puOK t && memOK t && numaOK t && sibOK t) (orderTopo [⟨4096, 0⟩] [{ type := tPACKAGE, arity := 2 },
+    { type := tCORE, arity := 2 }, { type := tPU, arity := 2, os := some [0, 4, 2, 6, 1, 5, 3, 7] }] [0, 4, 2, 6, 1, 5, 3, 7] [0]) = true := by decide
+/-- `sibOK` is needed: two PUs listed as [1, 0] below the root meet the other four conditions, but the dump is not well-formed
+(its only violated clause is `siblings-ordered`) -/
+example : (fun t => (topoOK t && puOK t && memOK t && numaOK t, sibOK t, wfCheck (toDump t)))
+    { rootMem := [⟨4096, 0⟩], levels := [{ type := tPU, arity := 2, osIdx := [1, 0] }], puIdx := [1, 0], numaIdx := [0] } =
+    (true, false, ["siblings-ordered@1"]) := by decide
+
+/-- `sibOK` is EXACTLY the condition the last clause needs: under the other four side conditions the dump is well-formed if and
+only if `sibOK t` holds (so no weaker hypothesis on the index sequences can replace it) -/
+theorem C07_build_wf_iff_sibOK (t : Topo) (h : topoOK t = true) (hp : puOK t = true) (hm : memOK t = true)
+    (hn : numaOK t = true) : WF (toDump t) ↔ sibOK t = true :=
+  ⟨fun hw => sibOK_of_clause t (topoOK_OK t h)
+      (fun o ho => hw.2 ("siblings-ordered", sibClause) (List.mem_of_getElem? (i := 28) rfl) o ho),
+   fun hs => build_wf t h hp hm hn hs⟩
+
+/-! ### the side conditions from `orderTopo` (partial) -/
+
+/-- **what the ordering of children establishes (side conditions from the builder, partial).**  `buildTopo` returns only
+topologies of the form `orderTopo rm ls pu numa` (every `some` branch of its definition is `chainOk (orderTopo ...)`, with
+`pu` the PU index array of the description after the `Nodup` test).  For EVERY such topology — any memory, any level list, any
+duplicate-free index sequence `pu` with at least one entry per PU — the second side condition `puOK` (one distinct os_index per
+PU) and the normal-children half of the fifth one (`sibNormalOK`: consecutive normal siblings are in the order of the smallest
+PU os_index below them; `sibOK t = (sibNormalOK t && sibMemOK t)` by definition) HOLD: the PU sequence of the result is the leaf
+list of `mkNode`, which sorts the children of every object by their smallest leaf (insertion sort on `key`) — `mkNode_spec`: the
+leaf list has one entry per PU, is duplicate-free, every node's key is its smallest leaf and the list satisfies the recursive
+order predicate `Ord`; `ord_slices` turns `Ord` into the closed form over the slices of `puIdx` that `sibOK` is stated with.
+PARTIAL — still hypotheses (evaluated per case by the driver on the result): `topoOK` of the result, `memOK`, `numaOK`, the
+memory-children half `sibMemOK` (NUMA os_indexes ascending per object: `buildTopo` tests it on the creation sequence,
+`blocksAscending`; its transport through the post-order of `mkNode` is not formalised), that `pu` has at least as many entries as
+the result has PUs (follows from the parser's width invariant, not connected here), and the inspection step
+"`buildTopo f p = some t` implies `t = orderTopo ...`" itself (`split` exhausts its budget on the 60-line definition). -/
+theorem C07_order_establishes_sib_partial (rm : List MemChild) (l0 : List NLevel) (pu numa : List Nat) (hnd : pu.Nodup)
+    (hOK : topoOK (orderTopo rm l0 pu numa) = true) (hlen : prodL (arities (orderTopo rm l0 pu numa)) ≤ pu.length) :
+    puOK (orderTopo rm l0 pu numa) = true ∧ sibNormalOK (orderTopo rm l0 pu numa) = true :=
+  orderTopo_sib rm l0 pu numa hnd hOK hlen
+
+/-- ... hence build_wf for every topology `orderTopo` returns, with `puOK` and the normal half of `sibOK` discharged -/
+theorem C07_build_wf_of_order_partial (rm : List MemChild) (l0 : List NLevel) (pu numa : List Nat) (hnd : pu.Nodup)
+    (hOK : topoOK (orderTopo rm l0 pu numa) = true) (hlen : prodL (arities (orderTopo rm l0 pu numa)) ≤ pu.length)
+    (hm : memOK (orderTopo rm l0 pu numa) = true) (hn : numaOK (orderTopo rm l0 pu numa) = true)
+    (hs : sibMemOK (orderTopo rm l0 pu numa) = true) : WF (toDump (orderTopo rm l0 pu numa)) :=
+  build_wf_of_order rm l0 pu numa hnd hOK hlen hm hn hs
+
+/-- **side conditions from `buildTopo` (partial): the order property.**  For every accepted parse result `p` and every filter
+configuration, a topology returned by `buildTopo` whose PU os_indexes are one per PU and distinct (`puOK`) lists the normal
+children of every object in the order of their smallest PU os_index (`sibNormalOK`): `buildTopo f p = some t` implies
+`t = orderTopo ..` (`buildTopo_isOrd`: every `some` branch of the definition is `chainOk (orderTopo ..)`), the PU sequence of
+`orderTopo` is the leaf list of `mkNode`, and a duplicate-free leaf list of `mkNode` satisfies `Ord` (`mkNode_ord_of_nodup`). -/
+theorem C07_buildTopo_sib_normal (f : List Nat) (p : Parsed) (t : Topo) (hb : buildTopo f p = some t)
+    (hOK : topoOK t = true) (hp : puOK t = true) : sibNormalOK t = true :=
+  buildTopo_sibNormal f p t hb hOK hp
+
+/-- **build_wf_of_parse, strongest partial form**: for every string `s` the parser accepts and every topology `buildTopo` makes of
+the result, `WF (toDump t)` holds under `topoOK`, `puOK`, `memOK`, `numaOK` and the memory-children half `sibMemOK` of the fifth
+condition — the normal-children half (the order of children by first PU, which is what the core's reordering is about) is
+PROVED from `buildTopo`.  MISSING for `parse s = .ok p → buildTopo f p = some t → WF (toDump t)`: `topoOK t` (positive arities,
+level types, PU level last, osIdx of the PU level = puIdx: needs the parser's postconditions on types/arities and the `objs`
+component of `mkNode`), `puOK t` (available from `C07_order_establishes_sib_partial` once `pu.length` ≥ number of PUs is derived
+from the width invariant `C07_widths_no_wrap` through `dropPlain`/`devirt`), `memOK t` / `numaOK t` (NUMA count of `mkNode` =
+length of the NUMA level of `toDump`, `numas` is a permutation of the creation numbers), `sibMemOK t` (transport of
+`blocksAscending` through the post-order).  The driver evaluates each of them on every case. -/
+theorem C07_build_wf_of_parse_partial (s : Bytes) (f : List Nat) (p : Parsed) (t : Topo) (_hparse : parse s = .ok p)
+    (hb : buildTopo f p = some t) (hOK : topoOK t = true) (hp : puOK t = true) (hm : memOK t = true) (hn : numaOK t = true)
+    (hs : sibMemOK t = true) : WF (toDump t) :=
+  build_wf_of_buildTopo f p t hb hOK hp hm hn hs
+
+/-- non-vacuity: "Package:2 Core:2 PU:2(indexes=0,4,2,6,1,5,3,7)" is accepted, built, and meets the hypotheses -/
+example : (match parse (str "Package:2 Core:2 PU:2(indexes=0,4,2,6,1,5,3,7)") with
+    | .ok p => (match buildTopo defaultFilters p with
+      | some t => topoOK t && puOK t && memOK t && numaOK t && sibMemOK t && sibNormalOK t && (t.puIdx == [0, 4, 2, 6, 1, 5, 3, 7])
+      | none => false)
+    | .error _ => false) = true := by decide
+
+/-- the specification of `mkNode` used above, for every arity list and every duplicate-free index sequence -/
+theorem C07_mkNode_orders_leaves (pu : List Nat) (hnd : pu.Nodup) (as : List Nat) (att : List Nat) (osf : List (Nat → Int)) (lp ns : Nat)
+    (hpos : ∀ a ∈ as, 1 ≤ a) (hlen : lp + prodL as ≤ pu.length) :
+    (mkNode pu as att osf (lp, ns)).1.leaves.length = prodL as ∧ (mkNode pu as att osf (lp, ns)).1.leaves.Nodup ∧
+    (∀ x ∈ (mkNode pu as att osf (lp, ns)).1.leaves, ∃ i, lp ≤ i ∧ i < lp + prodL as ∧ pu[i]? = some x) ∧
+    (mkNode pu as att osf (lp, ns)).1.key = minL (mkNode pu as att osf (lp, ns)).1.leaves ∧
+    Ord as (mkNode pu as att osf (lp, ns)).1.leaves := by
+  have := mkNode_spec pu hnd as att osf lp ns hpos hlen
+  exact ⟨this.2.1, this.2.2.1, this.2.2.2.1, this.2.2.2.2.1, this.2.2.2.2.2⟩
+
+/-- non-vacuity: the interleaved description Package:2 Core:2 PU:2(indexes=0,4,2,6,1,5,3,7) with one NUMA node at the root meets
+every hypothesis of the two theorems above -/
+example : (fun (pu : List Nat) t => decide pu.Nodup && topoOK t && decide (prodL (arities t) ≤ pu.length) && memOK t && numaOK t && sibMemOK t)
+    [0, 4, 2, 6, 1, 5, 3, 7] (orderTopo [⟨4096, 0⟩] [{ type := tPACKAGE, arity := 2 },
+    { type := tCORE, arity := 2 }, { type := tPU, arity := 2, os := some [0, 4, 2, 6, 1, 5, 3, 7] }] [0, 4, 2, 6, 1, 5, 3, 7] [0]) = true := by decide
+example : Ord [2, 2] [0, 2, 1, 3] := by
+  refine ⟨fun r hr => ⟨fun r' hr' => trivial, fun r' hr' => ?_⟩, fun r hr => ?_⟩
+  · have h1 : r = 0 ∨ r = 1 := by omega
+    have h2 : r' = 0 := by omega
+    subst h2
+    rcases h1 with rfl | rfl <;> decide
+  · have : r = 0 := by omega
+    subst this; decide
 
 /-! ### export_fixpoint — general, for the flag word NO_ATTRS | IGNORE_MEMORY -/
 
@@ -324,6 +480,49 @@ example : (fun t => (specsOf t.levels).map (fun s => (acceptsB s, printDesc s)))
     (orderTopo [] [{ type := tPACKAGE, arity := 3, mem := [⟨1024, 0⟩, ⟨2048, 512⟩] },
       { type := tL1 + 2, arity := 2, cdepth := 3, ctype := 0, size := 1048576 }, { type := tCORE, arity := 2 }, { type := tPU, arity := 2 }]
       (List.range 24) (List.range 6)) = some (true, str "Package:3 L3Cache:2 Core:2 PU:2") := by decide
+
+/-- the name-stability test depends on the level keys only -/
+theorem nameStable_congr (fl : Nat) (ls ls' : List NLevel) (hk : ls'.map levelKey = ls.map levelKey) :
+    ls'.all (nameStable fl) = ls.all (nameStable fl) := by
+  have e : ∀ l : List NLevel, l.all (nameStable fl) = (l.map levelKey).all (fun k => fl == 10 || (k.1 != tPACKAGE && k.1 != tDIE && (fl == 14 || !isCacheT k.1))) := by
+    intro l; rw [List.all_map]; rfl
+  rw [e, e, hk]
+
+/-- **export / re-import fixpoint, the other flag words without attributes and memory (partial).**  The statement of
+`C07_export_fixpoint_partial` for the four flag words NO_ATTRS | IGNORE_MEMORY [| NO_EXTENDED_TYPES] [| V1] (10, 11, 14, 15:
+`fixFlagsB`), for every topology whose level names these flags do not change (`nameStable`: no Package / Die level under V1 or
+NO_EXTENDED_TYPES — they are exported as "Socket" / "Group" —, no cache level under NO_EXTENDED_TYPES — exported as "Cache";
+these are exactly the situations of the known findings F34 / F35, where the round trip is NOT a fixpoint) and, under V1, whose
+NUMA nodes hang from at most one depth (`hv1`, the test hwloc_topology_export_synthetic itself makes before it looks at
+IGNORE_MEMORY): export succeeds and is `printDesc specs`; `parse` reads it back as exactly these types and arities; every topology
+with the same level keys (and the same V1 restriction) exports to the same string.
+PARTIAL: the 12 flag words without NO_ATTRS or without IGNORE_MEMORY (attributes, memory children, index lists in the string;
+`parse_faithful` does not cover attributes) and the step "`buildTopo` of the re-parsed levels has these level keys" stay engine
+oracles per case. -/
+theorem C07_export_fixpoint_flags_partial (fl : Nat) (t : Topo) (specs : List LSpec) (hf : fixFlagsB fl = true)
+    (hst : t.levels.all (nameStable fl) = true) (hs : specsOf t.levels = some specs) (ha : acceptsB specs = true)
+    (hv1 : hasFlag fl flagV1 = true → (if t.rootMem.isEmpty then 0 else 1) + (t.levels.filter (fun l => !l.mem.isEmpty)).length ≤ 1) :
+    (exportChunks t fl).ok = true ∧ text (exportChunks t fl).chunks = printDesc specs ∧
+    (∃ p, parse (text (exportChunks t fl).chunks) = .ok p ∧
+      p.levels.map (·.attr.type) = expectedTypes specs ∧ p.levels.map (·.arity) = expectedArities specs) ∧
+    ∀ t' : Topo, t'.levels.map levelKey = t.levels.map levelKey →
+      (hasFlag fl flagV1 = true → (if t'.rootMem.isEmpty then 0 else 1) + (t'.levels.filter (fun l => !l.mem.isEmpty)).length ≤ 1) →
+      (exportChunks t' fl).ok = true ∧ text (exportChunks t' fl).chunks = text (exportChunks t fl).chunks := by
+  obtain ⟨h1, h2⟩ := export_fix_text_flags fl t specs hf hst hs hv1
+  refine ⟨h1, h2, ?_, ?_⟩
+  · rw [h2]; exact parse_faithful specs (acceptsB_sound specs ha)
+  · intro t' hk hv1'
+    have hs' : specsOf t'.levels = some specs := by rw [specsOf_congr t.levels t'.levels hk]; exact hs
+    have hst' : t'.levels.all (nameStable fl) = true := by rw [nameStable_congr fl t.levels t'.levels hk]; exact hst
+    obtain ⟨h3, h4⟩ := export_fix_text_flags fl t' specs hf hst' hs' hv1'
+    exact ⟨h3, by rw [h4, h2]⟩
+
+/-- non-vacuity: Group:3 [2 NUMA] / Core:2 / PU:2 under all four flag words exports to "Group:3 Core:2 PU:2" -/
+example : [10, 11, 14, 15].all (fun fl => (fun t => fixFlagsB fl && t.levels.all (nameStable fl) &&
+      (specsOf t.levels).map (fun s => (acceptsB s, printDesc s)) == some (true, str "Group:3 Core:2 PU:2") &&
+      decide ((if t.rootMem.isEmpty then 0 else 1) + (t.levels.filter (fun l => !l.mem.isEmpty)).length ≤ 1))
+    (orderTopo [] [{ type := tGROUP, arity := 3, mem := [⟨1024, 0⟩, ⟨2048, 512⟩] }, { type := tCORE, arity := 2 }, { type := tPU, arity := 2 }]
+      (List.range 12) (List.range 6))) = true := by decide
 
 /-! ### attached NUMA nodes and type filters -/
 
